@@ -24,6 +24,24 @@ CHECKS = {
             'clauses are monitored on the implementation.', '§6 C19', ''),
 }
 
+CHECKS.update({
+    'C05': ('Lean theorem C05.roundtrip: parse (encode f) = collect f for every well-formed declaration tree '
+            '(unbounded nesting/size), plus unknown_skipped and fqn_is_path_plus_name; tie: random source trees '
+            'encoded by the harness (compared with the Lean encode) and parsed by the real DznJsonAst, dumps '
+            'diffed; monitor: implementation dump = specification collect.', '§6 C05', ''),
+    'C14': ('Lean theorems C14.* (resolution order = scope chain, find_fqn/find_any = filter specifications, '
+            'sublist/each once, validity of every NamespaceIds handed out, lossless notations); tie: real '
+            'find_fqn/find_any/scope_resolution_order/namespaceids_t on FileContents obtained through the real parser.',
+            '§6 C14', ''),
+    'C15': ('Lean theorems C15.no_internal (for every JSON value only the two documented errors) and '
+            'C15.out_event_refused over a model that carries Python failure modes; tie: mutation stream '
+            '(delete/retype/retag) + arbitrary roots, outcome class compared.', '§6 C15',
+            'Interpreter stack depth is not modelled (documents up to the loader limit of ~509 nested namespaces are exercised).'),
+    'C16': ('Lean theorem C16.history_free over the parser-object state machine (any history of new/load/process on '
+            'any instances) + instances_isolated; tie: random histories against the real class, results re-dumped at '
+            'the end to catch retroactive mutation.', '§6 C16', ''),
+})
+
 NOT_YET = {}
 
 
